@@ -513,7 +513,8 @@ def _rand_prime(rnd, bits):
          bound="SAMPLED: the planted-root shapes of small_roots_test.py (univariate high bits 400/k=3, negative root, low "
                "bits, cubic 128 bits; bivariate mod p [120,120] m=4, [232,16] m=4; bivariate mod n [340,340], [820,100], "
                "[400,400] m=2, quadratic x cubic [128,128]; thorough adds univariate 480/k=9, bivariate [130,130] m=5, "
-               "[128,128] m=6, trivariate [48,48,48], [112,16,16]) on 2 (quick) / 4 (thorough) seeded 2048-bit moduli "
+               "[128,128] m=6, trivariate [48,48,48], [112,16,16]; univariate 400/k=3 and bivariate [120,120] also with "
+               "the relation negated, f(root) == -p) on 2 (quick) / 4 (thorough) seeded 2048-bit moduli "
                "with 1024-bit primes. Each shape is run (i) with the unknown sizes scaled to 95% (margin): the planted "
                "root MUST be found, and (ii) at the upstream sizes: not finding is tolerated. In both: every returned "
                "root is a true root (f(root) != 0 shares a factor with n, resp. f(root) == 0 mod n)",
@@ -571,6 +572,14 @@ def small_roots_shapes(ctx):
         r = small_roots.univariate_modp(f, b, k)
         report(f"univariate_modp/high_bits_{ub0}_k{k}", dict(base, unknown_bits=ub, k=k, planted=p - p0),
                None if r is None else [r], None if r is None else p0 + int(r), True, must)
+        if must and not thorough_only:
+          # the same relation written with the other sign (x - p0 style: f(root) == -p in sympy's symmetric
+          # representation): being a root does not depend on the orientation of the relation
+          f = sympy.Poly(-p0 - x, modulus=n)
+          ctx.case(key=("uni_high_negated", ub, k, key_index))
+          r = small_roots.univariate_modp(f, b, k)
+          report(f"univariate_modp/high_bits_{ub0}_k{k}_negated", dict(base, unknown_bits=ub, k=k, planted=p - p0),
+                 None if r is None else [r], None if r is None else p0 + int(r), True, must)
       # ---- univariate, negative root
       ub = sz(400, scale)
       b = 2 ** ub
@@ -614,6 +623,13 @@ def small_roots_shapes(ctx):
         report(f"multivariate_modp/bivariate_{v1}_{v2}_m{m}",
                dict(base, unknown_bits=[u1, u2], m=m, planted=[p >> lx1, p % 2 ** u2]), r,
                None if r is None else p0 + int(r[0]) * 2 ** lx1 + int(r[1]), True, must)
+        if must and (v1, v2) == (120, 120):
+          f = sympy.Poly(-p0 - x1 * 2 ** lx1 - x2, modulus=n)
+          ctx.case(key=("bi_modp_negated", u1, u2, m, key_index))
+          r = small_roots.multivariate_modp(f, [2 ** u1, 2 ** u2], m)
+          report(f"multivariate_modp/bivariate_{v1}_{v2}_m{m}_negated",
+                 dict(base, unknown_bits=[u1, u2], m=m, planted=[p >> lx1, p % 2 ** u2]), r,
+                 None if r is None else p0 + int(r[0]) * 2 ** lx1 + int(r[1]), True, must)
       # ---- trivariate mod p:  p = x1 || known1 || x2 || known2 || x3
       if ctx.thorough and (must or key_index < 2):
         for v in ((48, 48, 48), (112, 16, 16)):
